@@ -258,7 +258,14 @@ func genStream(ch *Choices, big bool) []byte {
 			if big {
 				n = []int{1000, 4095, 4096, 4097, 10000}[ch.Choose(5, "long-len")]
 			}
+			esc := -1
+			if n > 4096 && ch.Bool(1, 2, "escape-near-4096") {
+				esc = 4090 + ch.Choose(10, "escape-offset") // a colour sequence across the 4096th byte of the line
+			}
 			for k := 0; k < n; k++ {
+				if k == esc {
+					sb.WriteString("\x1b[1;31m")
+				}
 				sb.WriteByte(wordAlphabet[(k*11+n)%len(wordAlphabet)])
 			}
 		}
